@@ -161,7 +161,12 @@ pub fn c08(tier: &str) -> i32 {
     // unbounded number of steps: closure over abstract book states through the real environment
     crate::envabs::run_env_closure(
         &mut out,
-        &crate::envabs::EnvClosureCfg { label: "Env<3>: every batch of <= 2 instructions x every schedule from every book state", multi: false, asset: 0, step_size: 10, start_trading: true, max_rest: 2, max_vol: 2, max_batch: 2, toggles: true, prices: 2, thin_pairs: !t },
+        &crate::envabs::EnvClosureCfg { label: "Env<3>: every batch of <= 2 instructions x every schedule from every book state", multi: false, asset: 0, step_size: 10, start_trading: true, max_rest: 2, max_vol: 2, max_batch: 2, toggles: true, prices: 2, thin_pairs: !t, aged: 0, suffix_k: 0 },
+    );
+    // the same from an environment that has already seen a dozen (thorough: 300) orders come and go
+    crate::envabs::run_env_closure(
+        &mut out,
+        &crate::envabs::EnvClosureCfg { label: "Env<3>: the same after 12 earlier orders were placed and cancelled", multi: false, asset: 0, step_size: 10, start_trading: true, max_rest: 2, max_vol: 2, max_batch: 2, toggles: false, prices: 2, thin_pairs: true, aged: if t { 300 } else { 12 }, suffix_k: 1 },
     );
     let sizes: &[usize] = if t { &[6, 12, 20, 33, 34, 48, 64, 100, 257, 1025, 4097] } else { &[6, 20, 33, 40, 64, 257, 1030] };
     large_batches::<1, 3>(&mut out, false, sizes, "env");
@@ -217,7 +222,7 @@ pub fn c10(tier: &str) -> i32 {
     // depth behind an unchanged touch; constructed with trading off, toggles between steps
     crate::envabs::run_env_closure(
         &mut out,
-        &crate::envabs::EnvClosureCfg { label: "Env<3>: three prices, trading off at construction, toggles", multi: false, asset: 0, step_size: 100, start_trading: false, max_rest: 2, max_vol: if t { 2 } else { 1 }, max_batch: 2, toggles: true, prices: 3, thin_pairs: !t },
+        &crate::envabs::EnvClosureCfg { label: "Env<3>: three prices, trading off at construction, toggles", multi: false, asset: 0, step_size: 100, start_trading: false, max_rest: 2, max_vol: if t { 2 } else { 1 }, max_batch: 2, toggles: true, prices: 3, thin_pairs: !t, aged: 0, suffix_k: 0 },
     );
     out.finish()
 }
@@ -300,7 +305,7 @@ pub fn c11(tier: &str) -> i32 {
     // unbounded number of steps on one asset of a two-asset environment
     crate::envabs::run_env_closure(
         &mut out,
-        &crate::envabs::EnvClosureCfg { label: "MarketEnv<2,3>: asset 1 explored, asset 0 static; every batch x schedule from every book state", multi: true, asset: 1, step_size: 50, start_trading: true, max_rest: 2, max_vol: 2, max_batch: 2, toggles: true, prices: 2, thin_pairs: !t },
+        &crate::envabs::EnvClosureCfg { label: "MarketEnv<2,3>: asset 1 explored, asset 0 static; every batch x schedule from every book state", multi: true, asset: 1, step_size: 50, start_trading: true, max_rest: 2, max_vol: 2, max_batch: 2, toggles: true, prices: 2, thin_pairs: !t, aged: 0, suffix_k: 0 },
     );
     out.assumptions = vec!["live values are read through get_orderbook()/get_market() right after each step".into()];
     out.finish()
@@ -344,7 +349,7 @@ pub fn c14(tier: &str) -> i32 {
     // unbounded number of steps on asset 0 while asset 1 must not move
     crate::envabs::run_env_closure(
         &mut out,
-        &crate::envabs::EnvClosureCfg { label: "MarketEnv<2,3>: asset 0 explored, asset 1 must not move; every batch x schedule from every book state", multi: true, asset: 0, step_size: 20, start_trading: true, max_rest: 2, max_vol: 2, max_batch: 2, toggles: true, prices: 2, thin_pairs: !t },
+        &crate::envabs::EnvClosureCfg { label: "MarketEnv<2,3>: asset 0 explored, asset 1 must not move; every batch x schedule from every book state", multi: true, asset: 0, step_size: 20, start_trading: true, max_rest: 2, max_vol: 2, max_batch: 2, toggles: true, prices: 2, thin_pairs: !t, aged: 0, suffix_k: 0 },
     );
     out.assumptions = vec!["shadow = stand-alone real OrderBooks fed only their asset's operations at the same times".into()];
     out.finish()
@@ -365,7 +370,7 @@ pub fn c05_env_part(out: &mut Outcome, t: bool) {
     // every step carries the stamp the next step starts with
     crate::envabs::run_env_closure(
         out,
-        &crate::envabs::EnvClosureCfg { label: "Env<3>: step size 1 < batch of 2, every schedule, from every book state", multi: false, asset: 0, step_size: 1, start_trading: true, max_rest: if t { 3 } else { 2 }, max_vol: 2, max_batch: 2, toggles: true, prices: 2, thin_pairs: true },
+        &crate::envabs::EnvClosureCfg { label: "Env<3>: step size 1 < batch of 2, every schedule, from every book state", multi: false, asset: 0, step_size: 1, start_trading: true, max_rest: if t { 3 } else { 2 }, max_vol: 2, max_batch: 2, toggles: true, prices: 2, thin_pairs: true, aged: 0, suffix_k: 0 },
     );
 }
 
